@@ -753,6 +753,17 @@ type errTest struct {
 
 func (w *World) nilTests(fn *ssa.Function, v ssa.Value) []errTest {
 	var out []errTest
+	// a call with several results: the tests of its last result (the error)
+	if c, ok := v.(*ssa.Call); ok {
+		if tup, ok := c.Type().(*types.Tuple); ok && tup.Len() > 1 && c.Referrers() != nil {
+			for _, ref := range *c.Referrers() {
+				if ex, ok := ref.(*ssa.Extract); ok && ex.Index == tup.Len()-1 {
+					out = append(out, w.nilTests(fn, ex)...)
+				}
+			}
+			return out
+		}
+	}
 	allInstrs(fn, func(in ssa.Instruction) {
 		ifi, ok := in.(*ssa.If)
 		if !ok {
@@ -794,6 +805,48 @@ func (w *World) nilTests(fn *ssa.Function, v ssa.Value) []errTest {
 		out = append(out, errTest{If: ifi, OkSucc: okSucc})
 	})
 	return out
+}
+
+// APThrough renders v like AP, but sees through calls of module helpers that have a single
+// (non-recover) return: the helper's result expression is rendered with its parameters bound
+// to the call's arguments (depth ≤ 2). `x := helper(a, b)` then reads like the inlined body.
+func (w *World) APThrough(v ssa.Value) string { return w.apThrough(v, 0) }
+
+func (w *World) apThrough(v ssa.Value, depth int) string {
+	rv := w.Resolve(v)
+	c, ok := rv.(*ssa.Call)
+	if !ok || depth > 2 {
+		return w.AP(v)
+	}
+	h := c.Call.StaticCallee()
+	if h == nil || h.Blocks == nil || !w.InModule(h) {
+		return w.AP(v)
+	}
+	var ret ssa.Value
+	n := 0
+	allInstrs(h, func(in ssa.Instruction) {
+		if rt, ok := in.(*ssa.Return); ok && rt.Block() != h.Recover && len(rt.Results) == 1 {
+			n++
+			ret = rt.Results[0]
+		}
+	})
+	if n != 1 {
+		return w.AP(v)
+	}
+	saved := w.paramEnv
+	penv := map[*ssa.Parameter]ssa.Value{}
+	for k, x := range saved {
+		penv[k] = x
+	}
+	for i, p := range h.Params {
+		if i < len(c.Call.Args) {
+			penv[p] = w.Resolve(c.Call.Args[i])
+		}
+	}
+	w.paramEnv = penv
+	s := w.apThrough(ret, depth+1)
+	w.paramEnv = saved
+	return s
 }
 
 // argLeaf is one origin of an argument position: the call site and the (resolved) value
